@@ -272,6 +272,12 @@ def immutable_views(ctx, pairs, rng):
         vp = views_problem(o, list(pairs), ks)
         if vp:
             ctx.violation(f"immutable-view|{name}|{vp}", {"pairs": pairs}, "")
+    # one-shot iterables (generator, iterator, zip) as constructor input
+    for cname, cls in (("MultiMapping", MultiMapping), ("MutableMultiMapping", MutableMultiMapping), ("QueryParams", QueryParams), ("FormData", FormData)):
+        for iname, it in (("generator", (p for p in pairs)), ("iter", iter(list(pairs))), ("zip", zip([k for k, _ in pairs], [v for _, v in pairs]))):
+            vp = views_problem(cls(it), list(pairs), ks)
+            if vp:
+                ctx.violation(f"immutable-view|{cname}-from-{iname}|{vp}", {"pairs": pairs}, "")
     # mapping constructor
     d = dict(pairs)
     vp = views_problem(MultiMapping(d), list(d.items()), ks)
@@ -314,7 +320,7 @@ def run(ctx):
 
     # ---- random long sequences with the icontract invariant armed on the real class
     contracts.arm_multimap()
-    keys4, vals4 = "abcd", (1, 2, 3, "x")
+    keys4, vals4 = "abcd", ("", 0, None, "x")  # values that are falsy must behave like any other value
     ops4 = build_ops(keys4, vals4)
     for i in range(ctx.scale(3000, 200_000)):
         init = [(rng.choice(keys4), rng.choice(vals4)) for _ in range(rng.randrange(0, 6))]
